@@ -139,3 +139,63 @@ Example C10_example_hyp_xa_gain : exists d,
     Some [IBL.C09.Model.CG (200, O); IBL.C09.Model.CG (200, O); IBL.C09.Model.CG (25, 1%nat);
           IBL.C09.Model.CG (1, O); IBL.C09.Model.CG (1, O); IBL.C09.Model.C1].
 Proof. eexists. split; [vm_compute; reflexivity|]. repeat split; vm_compute; reflexivity. Qed.
+
+(* ------------------------------------------------------------------ *)
+(* C10 x C01: one row per selected sample for every selector form       *)
+(* ------------------------------------------------------------------ *)
+From IBL.C10 Require Import Select.
+
+(* Integer, slice (any step) or integer-list selector s accepted by NumPy on
+   the sample axis (C01's np_index1 / sel_positions): read_sync(s) and
+   read(s)[1] return one row per selected sample, in selector order, each the
+   16 decoded lines of that sample followed by its thresholded analog lines
+   (floors over the selected samples).  An integer selector keeps a (1, .) row.
+   Domain: one sync word; integer selectors on recordings without analog sync. *)
+Theorem C10_rows_follow_the_selector :
+  forall typ ntr c0 c1 c2 c3 s one thr gain use_floor raw d rows,
+  nsync_of typ c0 c1 c2 c3 = 1 -> 1 <= ntr ->
+  (forall r, In r raw -> Z.of_nat (List.length r) = ntr) ->
+  (forall i, In i (analog_indices typ c0 c1 c2 c3) -> 0 <= i < ntr) ->
+  IBL.C01.Model.np_index1 raw s = IBL.C01.Model.Ok (d, rows) ->
+  (d = false \/ analog_indices typ c0 c1 c2 c3 = []) ->
+  (use_floor = false \/ rows <> [] \/ analog_indices typ c0 c1 c2 c3 = []) ->
+  let floors := floors_of use_floor (analog_volts typ c0 c1 c2 c3 gain rows)
+                          (List.length (analog_indices typ c0 c1 c2 c3)) in
+  read_sync_sel typ ntr c0 c1 c2 c3 s one thr gain use_floor raw =
+  Some (map (fun r => split_word (nth (Z.to_nat (ntr - 1)) r 0)
+                      ++ digitise_row (10 * one) (10 * thr) 10 floors
+                           (map (fun v => v * gain) (analog_cols typ c0 c1 c2 c3 r)))
+            rows).
+Proof. exact read_sync_sel_layout. Qed.
+Print Assumptions C10_rows_follow_the_selector.
+
+(* No analog sync channel (every imec file, digital-only nidq): the rows
+   returned for s are the same selector applied to the fully decoded
+   recording — in particular read_sync(-1) is its last row. *)
+Theorem C10_selector_commutes_with_decoding :
+  forall typ ntr c0 c1 c2 c3 s one thr gain use_floor raw d rows full,
+  nsync_of typ c0 c1 c2 c3 = 1 -> 1 <= ntr ->
+  (forall r, In r raw -> Z.of_nat (List.length r) = ntr) ->
+  analog_indices typ c0 c1 c2 c3 = [] ->
+  IBL.C01.Model.np_index1 raw s = IBL.C01.Model.Ok (d, rows) ->
+  read_sync typ ntr c0 c1 c2 c3 0 (Z.of_nat (List.length raw)) one thr gain use_floor raw = Some full ->
+  exists sel_rows,
+    read_sync_sel typ ntr c0 c1 c2 c3 s one thr gain use_floor raw = Some sel_rows /\
+    IBL.C01.Model.np_index1 full s = IBL.C01.Model.Ok (d, sel_rows) /\ List.length sel_rows = List.length rows.
+Proof. exact read_sync_sel_is_selection. Qed.
+Print Assumptions C10_selector_commutes_with_decoding.
+
+(* an integer selector on a recording WITH analog sync channels raises
+   (np.concatenate of a (1,16) block with a 1-D analog vector) although the
+   same sample selected by a one-element list or slice is returned: the
+   faithful model violates "one row per selected sample" (known finding F-C10-f);
+   on a digital-only layout read_sync(-1) is the last row *)
+Theorem C10_integer_selector_with_analog_refuted :
+  let raw := [[100; 1]; [20000; 2]; [100; -1]] in
+  read_sync_sel 1 2 0 0 1 1 (IBL.C01.Model.SInt (-1)) 1024 1200 1 false raw = None /\
+  read_sync_sel 1 2 0 0 1 1 (IBL.C01.Model.SList [-1]) 1024 1200 1 false raw <> None /\
+  read_sync_sel 1 2 0 0 1 1 (IBL.C01.Model.SSlice (Some 2) (Some 3) None) 1024 1200 1 false raw <> None /\
+  read_sync_sel 1 2 1 1 0 1 (IBL.C01.Model.SInt (-1)) 1024 1200 1 true raw = Some [split_word (-1)] /\
+  read_sync_sel 1 2 1 1 0 1 (IBL.C01.Model.SSlice (Some (-1)) (Some 0) None) 1024 1200 1 true raw = Some [].
+Proof. vm_compute. repeat split; discriminate. Qed.
+Print Assumptions C10_integer_selector_with_analog_refuted.
